@@ -116,7 +116,7 @@ class Gir:
                 cargs = []
                 for a in args:
                     t = (a.get('t') or '')
-                    if 'Parser' in t or 'fn(' in t and 'ErrMode' in t:
+                    if 'Parser' in t or 'winnow::' in t and 'RefCell' not in t:
                         cargs.append(self.conv(a, ctx))
                     else:
                         cargs.append(None)
